@@ -237,6 +237,13 @@ func runC08(c *Ctx) {
 				{"md5-wrong", "reject-if-integrity", func(b, k string, body []byte) *drv.Req {
 					return &drv.Req{Method: "PUT", Path: drv.ObjPath(b, k), Body: body, Header: drv.H("Content-MD5", otherMD5)}
 				}},
+				{"md5-all-zero-bytes", "reject-if-integrity", func(b, k string, body []byte) *drv.Req {
+					// sixteen zero bytes are a digest like any other (nobody's, for these bodies)
+					return &drv.Req{Method: "PUT", Path: drv.ObjPath(b, k), Body: body, Header: drv.H("Content-MD5", "AAAAAAAAAAAAAAAAAAAAAA==")}
+				}},
+				{"md5-all-one-bits", "reject-if-integrity", func(b, k string, body []byte) *drv.Req {
+					return &drv.Req{Method: "PUT", Path: drv.ObjPath(b, k), Body: body, Header: drv.H("Content-MD5", "/////////////////////w==")}
+				}},
 				{"md5-case-flipped", "reject-if-integrity", func(b, k string, body []byte) *drv.Req {
 					// base64 is case sensitive: the right digest with the case of its letters flipped names another one
 					good := drv.MD5B64(body)
